@@ -284,7 +284,17 @@ type dec_res =
 | RPath of bytes
 | RDeps of n * z * n list
 
-val decode : bool -> bytes list -> bool -> n -> bytes -> dec_res
+type rmode =
+| RdOld of bool
+| RdCur
+
+val decode_old : bool -> bytes list -> bool -> n -> bytes -> dec_res
+
+val check_ids_cur : n -> n list -> bool
+
+val decode_cur : bytes list -> bool -> n -> bytes -> dec_res
+
+val decode : rmode -> bytes list -> bool -> n -> bytes -> dec_res
 
 type lstate = { l_s : dstate; l_off : n; l_total : n; l_unique : n }
 
@@ -294,11 +304,11 @@ val l_add_deps : lstate -> n -> z -> n list -> n -> lstate
 
 val needs_recompaction : n -> n -> bool
 
-val load_loop : bool -> bool -> nat -> lstate -> bytes -> dload
+val load_loop : bool -> rmode -> nat -> lstate -> bytes -> dload
 
 val l_init : lstate
 
-val load_deps_ver : bool -> bool -> bytes -> dload
+val load_deps_ver : bool -> rmode -> bytes -> dload
 
 val load_deps_gen : bool -> bytes -> dload
 
@@ -336,7 +346,7 @@ val recompact_ops : (bytes -> bool) -> dstate -> n list -> dop list option
 val recompact_r : (bytes -> bool) -> dstate -> recompact_res
 
 val session_ver :
-  bool -> bool -> (bytes -> bool) -> bytes -> dop list -> bytes
+  bool -> rmode -> (bytes -> bool) -> bytes -> dop list -> bytes
 
 val session_gen : bool -> (bytes -> bool) -> bytes -> dop list -> bytes
 
